@@ -9,7 +9,7 @@ from .. import gen, model, ser
 from ..val import veq, clone, walk, strings_of, drop_nulls
 
 ID = 'C17'
-SIZES = {'quick': 2500, 'thorough': 120000}
+SIZES = {'quick': 2500, 'thorough': 300000}
 REQUIRED_EVENTS = ['skeleton_agreed', 'idempotent', 'bkl_agreed']
 RULE = ('single-document layer chains (1-3 layers, files in mixed formats) over random trees with $required at random map values and list '
         'entries (also lists nested in lists), some satisfied by upper layers through edit-based children; fixed part: all subsets of leaf '
